@@ -175,21 +175,29 @@ def lexLe (lt : α → α → Bool) (isNull : α → Bool) (naFirst : Bool) :
     | .gt => false
     | .eq => lexLe lt isNull naFirst rest
 
+/-- the flat column of one sort key with its direction -/
+def sortKeyCol (flat : FlatDF α) (k : String × Bool) : R (Bool × List α) :=
+  match flat.cols.find? (·.1 == k.1) with
+  | some c => pure (k.2, c.2.2)
+  | none => .error .keyError
+
+/-- the key comparisons of records `i` and `j`, most significant first -/
+def sortKeysAt [Inhabited α] (kcols : List (Bool × List α)) (i j : Nat) : List (Bool × α × α) :=
+  kcols.map fun k => (k.1, k.2.getD i default, k.2.getD j default)
+
+/-- `sort_values(by=[ordinal] ++ keys)`: the row ordinal first, then the keys -/
+def sortLe [Inhabited α] (lt : α → α → Bool) (isNull : α → Bool) (naFirst : Bool) (ords : List Label)
+    (kcols : List (Bool × List α)) (i j : Nat) : Bool :=
+  if ords.getD i (.int 0) == ords.getD j (.int 0) then lexLe lt isNull naFirst (sortKeysAt kcols i j)
+  else (ords.getD i (.int 0)).le (ords.getD j (.int 0))
+
 /-- `NestedFrame.sort_values` by nested fields (core.py:762-840): stable lexicographic sort of
     the flat table by (ordinal, keys…), then re-packing. -/
 def NFrame.sortNested [Inhabited α] (lt : α → α → Bool) (isNull : α → Bool) (F : NFrame α) (nest : String)
     (keys : List (String × Bool)) (naFirst : Bool) : R (NFrame α) := do
   let flat ← F.ordinalFlat nest
-  let kcols ← keys.mapM fun (f, asc) => match flat.cols.find? (·.1 == f) with
-    | some (_, _, v) => pure (asc, v)
-    | none => (.error .keyError : R _)
-  let ords := flat.index
-  let le (i j : Nat) : Bool :=
-    let oi := ords.getD i (.int 0); let oj := ords.getD j (.int 0)
-    if oi == oj then
-      lexLe lt isNull naFirst (kcols.map fun (asc, v) => (asc, v.getD i default, v.getD j default))
-    else oi.le oj
-  let perm := (List.range flat.len).mergeSort le
+  let kcols ← keys.mapM (sortKeyCol flat)
+  let perm := (List.range flat.len).mergeSort (sortLe lt isNull naFirst flat.index kcols)
   F.setFilteredFlatDf nest (flat.reorder perm default)
 
 end NP
